@@ -63,17 +63,14 @@ Section Top.
     unfold exec_main. rewrite Hf0.
     assert (Hck : check_fn p f0 (infer p f0) = true) by (apply verify_prog_ok; [exact Hv|eapply rd1_In; eauto]).
     destruct (check_fn_entry _ _ Hck) as (a0 & Ha0 & Hsub).
-    set (m1 := if lenN (m_state m) <? f_ssize f0 then set_state m (resize0 (m_state m) (f_ssize f0)) else m).
-    assert (H1 : m_stack m1 = [] /\ m_pos m1 = 0 /\ m_globals m1 = m_globals m /\ f_ssize f0 <= lenN (m_state m1)).
-    { unfold m1. destruct (N.ltb_spec (lenN (m_state m)) (f_ssize f0)); cbn [set_state m_stack m_pos m_globals m_state];
-        repeat split; auto. rewrite lenN_resize0. lia. }
-    destruct H1 as (S1 & S2 & S3 & S4).
+    set (m1 := mkMach (m_stack m) (m_globals m) 0 (repeat 0%Z (nn (f_ssize f0)))).
     assert (Hc : conc 1 0 a0 m1).
-    { eapply conc_sub; [|exact Hsub]. apply conc_entry; [left; exact Hpw|exact S2]. }
-    assert (Hf : finv p f0 1 0 m1) by (unfold finv; rewrite S1, S3; cbn; repeat split; auto; lia).
+    { eapply conc_sub; [|exact Hsub]. apply conc_entry; [left; exact Hpw|reflexivity]. }
+    assert (Hf : finv p f0 1 0 m1).
+    { unfold finv, m1; cbn [m_stack m_state m_globals]. rewrite Hst, lenN_repeat. cbn. unfold nn. repeat split; auto; lia. }
     pose proof (run_sound A p (verify_prog_ok p Hv) fuel 0 f0 1 0 m1 a0 0 Hf0 Ha0 Hc Hf) as R.
     destruct (run A p fuel 0 1 0 m1) as [n m'| | |]; cbn [ret_ok] in R; auto.
-    destruct R as (R1 & R2 & R3 & R4 & R5 & R6). split; [split; assumption|]. rewrite R5. lia.
+    destruct R as (R1 & R2 & R3 & R4 & R5 & R6). split; [split; cbn; assumption|]. cbn [m_stack]. rewrite R5. lia.
   Qed.
 
   (* one sample: set_input + execute_idx(dsp) *)
